@@ -218,10 +218,17 @@ Proof.
   - rewrite (IHn t H). reflexivity.
 Qed.
 
-(* types that may be used: no pointer to an interface type, map keys are basic kinds or
-   named basic types (so that the key has a JSON text and Go's == on keys is value
-   equality).  Everything else of the grammar is allowed. *)
-Definition key_ty (t : ty) : bool := is_basic_ty t.
+(* types that may be used: no pointer to an interface type; map key types are basic kinds,
+   named basic types, struct types and arrays of key types (the key then has a plain JSON
+   text and Go's == on keys is value equality; a struct type used as key type must have
+   key-shaped fields: that is checked on the key values, [kval]).  Everything else of the
+   grammar is allowed. *)
+Fixpoint key_ty (t : ty) : bool :=
+  match t with
+  | TBase _ | TNamed _ _ | TStruct _ => true
+  | TArray _ t' => key_ty t'
+  | _ => false
+  end.
 Fixpoint wf_ty (t : ty) : bool :=
   match t with
   | TPtr t' => negb (is_iface t') && wf_ty t'
@@ -348,14 +355,108 @@ Proof. induction n; intro v; simpl; [reflexivity | now rewrite IHn]. Qed.
 Definition key_lit (v : val) : option lit :=
   match v with VBase _ l | VNamed _ _ l => Some l | _ => None end.
 
-Fixpoint lit_mem (l : lit) (ls : list lit) : bool :=
-  match ls with [] => false | x :: r => lit_eqb l x || lit_mem l r end.
-Fixpoint lits_nodup (ls : list lit) : bool :=
-  match ls with [] => true | x :: r => negb (lit_mem x r) && lits_nodup r end.
+(* key-shaped values: values of basic kind, arrays and structs of key-shaped values (no
+   pointers, interfaces, slices or maps inside a key) *)
+Fixpoint kval (v : val) : bool :=
+  match v with
+  | VBase _ _ | VNamed _ _ _ => true
+  | VArray _ es => forallb kval es
+  | VStruct _ fs => forallb (fun fv => kval (snd fv)) fs
+  | _ => false
+  end.
+
+(* ---------------------------------------------- executable structural equality on values
+   (exact: nil and empty are different) — used by the correspondence comparisons *)
+Definition opt_eqb {A} (f : A -> A -> bool) (a b : option A) : bool :=
+  match a, b with
+  | None, None => true
+  | Some x, Some y => f x y
+  | _, _ => false
+  end.
+Fixpoint list_eqb {A} (f : A -> A -> bool) (a b : list A) : bool :=
+  match a, b with
+  | [], [] => true
+  | x :: a', y :: b' => f x y && list_eqb f a' b'
+  | _, _ => false
+  end.
+
+Fixpoint val_eqb (a b : val) : bool :=
+  match a, b with
+  | VBase x l, VBase y m => base_eqb x y && lit_eqb l m
+  | VNamed n x l, VNamed k y m => N.eqb n k && base_eqb x y && lit_eqb l m
+  | VStruct n fs, VStruct k gs =>
+      N.eqb n k &&
+      (fix go (fs gs : list (string * val)) {struct fs} : bool :=
+         match fs, gs with
+         | [], [] => true
+         | (f, v) :: fs', (g, w) :: gs' => String.eqb f g && val_eqb v w && go fs' gs'
+         | _, _ => false
+         end) fs gs
+  | VNilPtr t, VNilPtr u => ty_eqb t u
+  | VPtr v, VPtr w => val_eqb v w
+  | VSlice t o, VSlice u p =>
+      ty_eqb t u &&
+      match o, p with
+      | None, None => true
+      | Some es, Some gs =>
+          (fix go (es gs : list val) {struct es} : bool :=
+             match es, gs with
+             | [], [] => true
+             | e :: es', g :: gs' => val_eqb e g && go es' gs'
+             | _, _ => false
+             end) es gs
+      | _, _ => false
+      end
+  | VMap k t o, VMap l u p =>
+      ty_eqb k l && ty_eqb t u &&
+      match o, p with
+      | None, None => true
+      | Some es, Some gs =>
+          (fix go (es gs : list (val * val)) {struct es} : bool :=
+             match es, gs with
+             | [], [] => true
+             | (a1, b1) :: es', (a2, b2) :: gs' => val_eqb a1 a2 && val_eqb b1 b2 && go es' gs'
+             | _, _ => false
+             end) es gs
+      | _, _ => false
+      end
+  | VIface it o, VIface ju p =>
+      ty_eqb it ju &&
+      match o, p with
+      | None, None => true
+      | Some v, Some w => val_eqb v w
+      | _, _ => false
+      end
+  | VArray t es, VArray u gs =>
+      ty_eqb t u &&
+      (fix go (es gs : list val) {struct es} : bool :=
+         match es, gs with
+         | [], [] => true
+         | e :: es', g :: gs' => val_eqb e g && go es' gs'
+         | _, _ => false
+         end) es gs
+  | VDef d v, VDef e w => N.eqb d e && val_eqb v w
+  | _, _ => false
+  end.
+
+Lemma val_eqb_refl : forall v, val_eqb v v = true.
+Proof.
+  induction v using val_ind'; simpl;
+    rewrite ?N.eqb_refl, ?base_eqb_refl, ?ty_eqb_refl, ?(proj2 (lit_eqb_eq _ _) eq_refl); simpl; auto.
+  - induction H as [|[f w] r Hw _ IH]; [reflexivity|]. simpl in Hw.
+    now rewrite String.eqb_refl, Hw, IH.
+  - induction H as [|e r He _ IH]; [reflexivity|]. now rewrite He, IH.
+  - induction H as [|[a b] r [Ha Hb] _ IH]; [reflexivity|]. simpl in *. now rewrite Ha, Hb, IH.
+  - induction H as [|e r He _ IH]; [reflexivity|]. now rewrite He, IH.
+Qed.
+
+(* map keys: key-shaped and pairwise different (Go's == on keys) *)
+Fixpoint val_mem (v : val) (l : list val) : bool :=
+  match l with [] => false | x :: r => val_eqb v x || val_mem v r end.
+Fixpoint vals_nodup (l : list val) : bool :=
+  match l with [] => true | x :: r => negb (val_mem x r) && vals_nodup r end.
 Definition keys_nodup (kvs : list (val * val)) : bool :=
-  let ks := map (fun kv => key_lit (fst kv)) kvs in
-  forallb (fun o => match o with Some _ => true | None => false end) ks
-  && lits_nodup (flat_map (fun o => match o with Some l => [l] | None => [] end) ks).
+  forallb (fun kv => kval (fst kv)) kvs && vals_nodup (map fst kvs).
 
 (* well-formed value (of type [ty_of v]) *)
 Fixpoint wt (env : senv) (v : val) : bool :=
@@ -562,91 +663,6 @@ Qed.
 
 Lemma veq_wrap_ptr : forall n v w, v ≅ w -> wrap_ptr n v ≅ wrap_ptr n w.
 Proof. induction n; intros v w H; simpl; [exact H | constructor; auto]. Qed.
-
-(* ---------------------------------------------- executable structural equality on values
-   (exact: nil and empty are different) — used by the correspondence comparisons *)
-Definition opt_eqb {A} (f : A -> A -> bool) (a b : option A) : bool :=
-  match a, b with
-  | None, None => true
-  | Some x, Some y => f x y
-  | _, _ => false
-  end.
-Fixpoint list_eqb {A} (f : A -> A -> bool) (a b : list A) : bool :=
-  match a, b with
-  | [], [] => true
-  | x :: a', y :: b' => f x y && list_eqb f a' b'
-  | _, _ => false
-  end.
-
-Fixpoint val_eqb (a b : val) : bool :=
-  match a, b with
-  | VBase x l, VBase y m => base_eqb x y && lit_eqb l m
-  | VNamed n x l, VNamed k y m => N.eqb n k && base_eqb x y && lit_eqb l m
-  | VStruct n fs, VStruct k gs =>
-      N.eqb n k &&
-      (fix go (fs gs : list (string * val)) {struct fs} : bool :=
-         match fs, gs with
-         | [], [] => true
-         | (f, v) :: fs', (g, w) :: gs' => String.eqb f g && val_eqb v w && go fs' gs'
-         | _, _ => false
-         end) fs gs
-  | VNilPtr t, VNilPtr u => ty_eqb t u
-  | VPtr v, VPtr w => val_eqb v w
-  | VSlice t o, VSlice u p =>
-      ty_eqb t u &&
-      match o, p with
-      | None, None => true
-      | Some es, Some gs =>
-          (fix go (es gs : list val) {struct es} : bool :=
-             match es, gs with
-             | [], [] => true
-             | e :: es', g :: gs' => val_eqb e g && go es' gs'
-             | _, _ => false
-             end) es gs
-      | _, _ => false
-      end
-  | VMap k t o, VMap l u p =>
-      ty_eqb k l && ty_eqb t u &&
-      match o, p with
-      | None, None => true
-      | Some es, Some gs =>
-          (fix go (es gs : list (val * val)) {struct es} : bool :=
-             match es, gs with
-             | [], [] => true
-             | (a1, b1) :: es', (a2, b2) :: gs' => val_eqb a1 a2 && val_eqb b1 b2 && go es' gs'
-             | _, _ => false
-             end) es gs
-      | _, _ => false
-      end
-  | VIface it o, VIface ju p =>
-      ty_eqb it ju &&
-      match o, p with
-      | None, None => true
-      | Some v, Some w => val_eqb v w
-      | _, _ => false
-      end
-  | VArray t es, VArray u gs =>
-      ty_eqb t u &&
-      (fix go (es gs : list val) {struct es} : bool :=
-         match es, gs with
-         | [], [] => true
-         | e :: es', g :: gs' => val_eqb e g && go es' gs'
-         | _, _ => false
-         end) es gs
-  | VDef d v, VDef e w => N.eqb d e && val_eqb v w
-  | _, _ => false
-  end.
-
-Lemma val_eqb_refl : forall v, val_eqb v v = true.
-Proof.
-  induction v using val_ind'; simpl;
-    rewrite ?N.eqb_refl, ?base_eqb_refl, ?ty_eqb_refl, ?(proj2 (lit_eqb_eq _ _) eq_refl); simpl; auto.
-  - induction H as [|[f w] r Hw _ IH]; [reflexivity|]. simpl in Hw.
-    now rewrite String.eqb_refl, Hw, IH.
-  - induction H as [|e r He _ IH]; [reflexivity|]. now rewrite He, IH.
-  - induction H as [|[a b] r [Ha Hb] _ IH]; [reflexivity|]. simpl in *. now rewrite Ha, Hb, IH.
-  - induction H as [|e r He _ IH]; [reflexivity|]. now rewrite He, IH.
-Qed.
 
 (* ------------------------------------------------ all basic literals of a value (values,
    map keys, everything below pointers and interface boxes), with their basic kind *)
